@@ -212,7 +212,9 @@ def run(tier, seed, R):
               "non-trivial = distinct case with more than one element")
     R.exhaustive = False
     n_views = 40 if tier == 'quick' else 200
-    run_connected(tier, R)
+    if run_connected(tier, R):
+        R.notes.append('the sweep stopped after dependent_axes failed to return')
+        return
     for name, matrix in affine_catalogue().items():
         d, world_ref, grids = build(name, matrix)
         views = view_catalogue(d.shape, rng, max_views=n_views)
@@ -256,6 +258,8 @@ def run(tier, seed, R):
 
 
 def run_connected(tier, R):
+    from bounded.c10_stats import time_limit, CaseTimeout
+    hung = False
     """dependent_axes / _connected_axes on EVERY boolean correlation matrix up to 3x3 (4x4 in the thorough tier): the returned set contains
     every pixel axis the world axis of that index is marked as depending on, every world axis marked as depending on the pixel axis of that
     index, and is closed under 'shares a world axis / shares a pixel axis' (so nothing connected to it is dropped by the shortcuts)."""
@@ -290,8 +294,11 @@ def run_connected(tier, R):
                                 changed = True
                 exp = tuple(sorted(pix | wor))
                 try:
-                    got = tuple(int(x) for x in dependent_axes(FakeCoords(m), axis))
+                    with time_limit(5):
+                        got = tuple(int(x) for x in dependent_axes(FakeCoords(m), axis))
                     err = None if got == exp else "dependent_axes gives %r, the axes connected to axis %d are %r" % (got, axis, exp)
+                except CaseTimeout:
+                    got, err, hung = (), "did not return within 5 s (the search for connected axes does not terminate)", True
                 except Exception as e:
                     err = "raised %s: %s" % (type(e).__name__, e)
                 R.count(('dep', n, bits, axis) if any(bits) else None, 'dependent_axes-all-matrices')
@@ -301,3 +308,5 @@ def run_connected(tier, R):
                     R.fail("dependent_axes|%dx%d|%s" % (n, n, kind), "correlation matrix %s (world x pixel, coordinate order), axis %d (numpy order): %s" % (m.astype(int).tolist(), axis, err),
                            "import numpy as np\nfrom glue.core.coordinate_helpers import dependent_axes\nclass C:\n    axis_correlation_matrix = np.array(%r, dtype=bool)\n"
                            "got = tuple(int(x) for x in dependent_axes(C(), %d))\nprint(got, 'expected', %r)\nsys.exit(0 if got == %r else 1)\n" % (m.astype(int).tolist(), axis, exp, exp))
+                    if hung:
+                        return True        # every further use of the coordinate helpers would hang as well
